@@ -1354,6 +1354,9 @@ class Engine:
                 # a field of an immutable record that refers to a mutable object
                 reach(cur.fields.get(parts[-1]))
                 continue
+            if ok and len(parts) == 1 and isinstance(cur, tuple):
+                reach(cur)      # a *args tuple of mutable objects
+                continue
             if not ok or not isinstance(cur, VRef):
                 continue
             if len(parts) == 1:
